@@ -86,6 +86,18 @@ func (ec *ErrorCause) croppedJSON() []byte {
 		return nil
 	}
 
+	// The worst-case crop bounds the raw length of Message & WorkingDir, but escaping (quotes,
+	// backslashes, control characters, <>&) can still inflate the marshalled size beyond the
+	// limit: keep halving the two fields until the document fits
+	for length := (MaxErrorCauseSizeBytes - paddingForFieldNames) / 4; len(validErrorCauseJSON) > MaxErrorCauseSizeBytes && length >= 16; length /= 2 {
+		cause := compactor.cause()
+		cause.Message = cropString(cause.Message, length)
+		cause.WorkingDir = cropString(cause.WorkingDir, length)
+		if validErrorCauseJSON, err = json.Marshal(cause); err != nil {
+			return nil
+		}
+	}
+
 	return validErrorCauseJSON
 }
 
